@@ -20,7 +20,8 @@ def SvcCfg.ReadGood (c : SvcCfg) : Prop := c.read.Good
 instance SvcCfg.decReadGood (c : SvcCfg) : Decidable c.ReadGood := by unfold SvcCfg.ReadGood; exact inferInstance
 
 /-- LinearizableRead is called but the applied index is not awaited -/
-def SvcCfg.NoWait (c : SvcCfg) : Prop := c.read.readIndexFirst = true ∧ c.read.waitsApplied = false
+def SvcCfg.NoWait (c : SvcCfg) : Prop :=
+  c.read.readIndexFirst = true ∧ c.read.waitsApplied = false ∧ c.read.quorumPerRead = true
 instance SvcCfg.decNoWait (c : SvcCfg) : Decidable c.NoWait := by unfold SvcCfg.NoWait; exact inferInstance
 
 end NoKV.Cluster
